@@ -52,6 +52,7 @@ def pm_harness(ctx, stream, ops, np):
     lines = []
     tag = '%s_%d_%d' % (stream.name, os.getpid(), np or 0)
     launches = 0
+    retries = 0
     while todo:
         launches += 1
         opath = os.path.join(ctx.build, 'ops_%s.txt' % tag)
@@ -74,9 +75,16 @@ def pm_harness(ctx, stream, ops, np):
             if len(got) != len(todo):
                 return 1, lines, 'harness ended early: %d lines for %d ops\n%s' % (len(got), len(todo), err)
             break
-        # rank 0 reported an error status and ended the job: the last line is that status
-        if rc == 77 and got and (got[-1] in STATUS or got[-1].startswith('orient-')) and len(got) <= len(todo):
+        # rank 0 reported an error status and ended the job (MPI_Abort(77)): the last line is that status.  On np > 1 a
+        # status line can only be the last line of a launch; Open MPI 4.1.4's mpiexec sometimes dies itself (SIGSEGV in
+        # its PMIx server) while it tears the job down, so the exit status of mpiexec is not required to be 77.
+        aborted = bool(got) and (got[-1] in STATUS or got[-1].startswith('orient-')) and len(got) <= len(todo)
+        if aborted and (rc == 77 or ((np or 1) > 1 and rc not in (98, 99, -9))):
             todo = todo[len(got):]
+            retries = 0
+            continue
+        if not got and rc not in (98, 99, -9) and retries < 2 and 'runtime error' not in err and 'Sanitizer' not in err:
+            retries += 1  # the launcher died before the harness produced a line: try again
             continue
         return rc, lines, err
     return 0, lines, ''
